@@ -13,6 +13,22 @@ where
   was_completed: Arc<RwLock<bool>>,
 }
 
+// what reaches a subscriber from the inner subject while it is still being
+// handed the history
+enum Pending<Item> {
+  Next(usize, Item),
+  Error(RxError),
+  Complete,
+}
+
+// hand-over state of one subscriber: `Some(buffer)` while the history is being
+// handed over, `None` once live events are forwarded directly
+struct HandOver<Item> {
+  buffer: Option<Vec<Pending<Item>>>,
+  // number of items the replay covers
+  replayed: usize,
+}
+
 impl<'a, Item> ReplaySubject<'a, Item>
 where
   Item: Clone + Send + Sync,
@@ -59,72 +75,109 @@ where
         });
       }
 
-      let items = Arc::clone(&items);
-      let was_error = Arc::clone(&was_error);
-      let was_completed = Arc::clone(&was_completed);
+      // register with the inner subject first, so that nothing pushed from
+      // now on can be missed; what arrives while the history is being handed
+      // over is buffered and handed over afterwards. No lock is held while
+      // the subscriber is called, so it may call back into this subject.
+      let hand_over = Arc::new(RwLock::new(HandOver {
+        buffer: Some(Vec::new()),
+        replayed: 0,
+      }));
 
       let s_next = s.clone();
       let s_error = s.clone();
       let s_complete = s.clone();
-      let s_alive = s.clone();
-
-      // number of items the replay has handed to this subscriber; `None` until
-      // the replay is done. A live item below that mark is already covered by
-      // the replay (it was pushed before or during it) and must not be
-      // delivered a second time.
-      let replayed = Arc::new(RwLock::new(None::<usize>));
-      let replayed_live = Arc::clone(&replayed);
-      let replayed_error = Arc::clone(&replayed);
-      let replayed_complete = Arc::clone(&replayed);
-
-      *sbsc.write().unwrap() = Some(
-        utils::ready_set_go(
-          move || {
-            // block until emitted for replay
-            let items = &items.read().unwrap();
-            let was_error = &*was_error.read().unwrap();
-            let was_completed = &*was_completed.read().unwrap();
-            items.iter().for_each(|x| {
-              s.next(x.clone());
-            });
-            *replayed.write().unwrap() = Some(items.len());
-            if let Some(err) = &*was_error {
-              s.error(err.clone());
-              return;
-            } else if *was_completed {
-              s.complete();
+      let hand_over_next = Arc::clone(&hand_over);
+      let hand_over_error = Arc::clone(&hand_over);
+      let hand_over_complete = Arc::clone(&hand_over);
+      *sbsc.write().unwrap() = Some(subject.observable().subscribe(
+        move |(index, x)| {
+          let replayed = {
+            let mut h = hand_over_next.write().unwrap();
+            if let Some(buffer) = &mut h.buffer {
+              buffer.push(Pending::Next(index, x));
               return;
             }
-          },
-          subject.observable(),
-        )
-        .subscribe(
-          move |(index, x)| {
-            let is_new = match *replayed_live.read().unwrap() {
-              Some(n) => index >= n,
-              None => false,
-            };
-            if is_new {
-              s_next.next(x)
+            h.replayed
+          };
+          // a live item below that mark is already covered by the replay (it
+          // was stored before the history was copied) and must not be
+          // delivered a second time
+          if index >= replayed {
+            s_next.next(x);
+          }
+        },
+        move |e| {
+          {
+            let mut h = hand_over_error.write().unwrap();
+            if let Some(buffer) = &mut h.buffer {
+              buffer.push(Pending::Error(e));
+              return;
             }
-          },
-          // a terminal that arrives before the replay is done is stored
-          // already and will be delivered by the replay itself
-          move |e| {
-            if replayed_error.read().unwrap().is_some() {
-              s_error.error(e)
+          }
+          s_error.error(e);
+        },
+        move || {
+          {
+            let mut h = hand_over_complete.write().unwrap();
+            if let Some(buffer) = &mut h.buffer {
+              buffer.push(Pending::Complete);
+              return;
             }
-          },
-          move || {
-            if replayed_complete.read().unwrap().is_some() {
-              s_complete.complete();
+          }
+          s_complete.complete();
+        },
+      ));
+
+      {
+        // copy the state out: first the stored terminal, then the history (a
+        // terminal is stored after everything that was pushed before it)
+        let was_error = was_error.read().unwrap().clone();
+        let was_completed = *was_completed.read().unwrap();
+        let items = items.read().unwrap().clone();
+        hand_over.write().unwrap().replayed = items.len();
+
+        for x in items {
+          s.next(x);
+        }
+        if let Some(err) = was_error {
+          s.error(err);
+        } else if was_completed {
+          s.complete();
+        }
+      }
+
+      // hand over what arrived meanwhile, then go live
+      loop {
+        let (pending, replayed) = {
+          let mut h = hand_over.write().unwrap();
+          let replayed = h.replayed;
+          match &mut h.buffer {
+            Some(buffer) if !buffer.is_empty() => {
+              (std::mem::take(buffer), replayed)
             }
-          },
-        ),
-      );
-      // the replay may have ended the subscriber (stored terminal, or it left
-      // during the replay): the inner subject must not keep holding it
-      if !s_alive.is_subscribed() {
+            _ => {
+              h.buffer = None;
+              break;
+            }
+          }
+        };
+        for x in pending {
+          match x {
+            Pending::Next(index, x) => {
+              if index >= replayed {
+                s.next(x);
+              }
+            }
+            Pending::Error(e) => s.error(e),
+            Pending::Complete => s.complete(),
+          }
+        }
+      }
+
+      // the hand-over may have ended the subscriber (stored terminal, or it
+      // left meanwhile): the inner subject must not keep holding it
+      if !s.is_subscribed() {
         if let Some(sbsc) = &*sbsc.read().unwrap() {
           sbsc.unsubscribe();
         }
